@@ -1615,10 +1615,10 @@ def _try_async_spawn_harness(prop, ds):
 
 
 def _c09_tokio_harnesses(prop):
-    """C09 under the tokio-spawning macros (native only, wall-clock timeout 5 s per program): the macro future is lazy,
+    """C09 under the tokio-spawning macros (native only, wall-clock timeout 20 s per program): the macro future is lazy,
     branches of a step make progress concurrently, and it completes whenever every branch can"""
     out = []
-    T = "tokio::time::timeout(std::time::Duration::from_secs(5), %s).await"
+    T = "tokio::time::timeout(std::time::Duration::from_secs(20), %s).await"
     progs = [
         # an operand that awaits INLINE while the step is being assembled, released by an earlier sibling of the same step
         ("inline_await_released_by_sibling", "join_async_spawn",
@@ -1644,7 +1644,7 @@ def _c09_tokio_harnesses(prop):
         b += "    assert!(r.is_ok(), \"C09: the macro's future did not complete although every branch could\");\n"
         b += "    assert!(r.unwrap() == %s, \"C09: wrong result\");\n" % exp
         hn = "%s_tokio_%s" % (prop.lower(), name)
-        out.append(Harness(hn, harness_fn(hn, b), prog, note="tokio runtime (3 workers), 5 s timeout, native"))
+        out.append(Harness(hn, harness_fn(hn, b), prog, note="tokio runtime (3 workers), 20 s timeout, native"))
     # laziness: nothing runs before the first poll
     prog = "join_async_spawn! { async { ev(code(K_INIT, 0, 0, 0)); 1u8 }, tag(code(K_INIT, 1, 0, 0), async { 2u8 }) |> { ev(code(K_CAP, 1, 0, 1)); |x: u8| x + 1 } }"
     b = "    let r = block_on_tokio(async move {\n        let fut = %s;\n        let before = tlen();\n        tokio::task::yield_now().await;\n        let before2 = tlen();\n        (before, before2, fut.await)\n    });\n" % prog
